@@ -932,6 +932,70 @@ func indexOfKid(k kidSpec) int {
 	return 0
 }
 
+// converge: fault-free syncs with fresh caches until nothing happens any more
+func (g *gen) converge(i int, seed uint64) *scenario {
+	r := g.r
+	sc := g.basic("converge", i, seed)
+	// a population that the statement covers: no foreign object on a desired name, nothing stuck terminating
+	var setup []extOp
+	var feats []string
+	for _, op := range sc.Setup {
+		if op.Op == "steal" || op.Op == "deleting" || op.Op == "relabel" {
+			continue // would leave a foreign (unadoptable) object on a desired child's name
+		}
+		if op.Op == "create" && sc.Ctl.GenSelector && len(op.Name) > 0 && op.Name[0] == 'c' {
+			continue // an orphan without the controller-uid label cannot be adopted under a generated selector
+		}
+		if op.Op == "create" && op.Data != nil {
+			if md, ok := op.Data["metadata"].(map[string]interface{}); ok {
+				if _, foreign := md["ownerReferences"]; foreign {
+					name, _ := md["name"].(string)
+					if len(name) > 0 && name[0] == 'c' {
+						continue
+					}
+				}
+			}
+		}
+		setup = append(setup, op)
+	}
+	sc.Setup = setup
+	for _, c := range sc.Hook.Children {
+		delete(c["metadata"].(J)["labels"].(J), "controller-uid") // a hook answer the controller accepts
+	}
+	for _, f := range sc.Features {
+		if f != "foreign-owned" && f != "foreign-on-desired-name" && f != "child-deleting" && f != "desired-foreign-uid-label" && f != "owned-nonmatching" {
+			feats = append(feats, f)
+		}
+	}
+	sc.Features = feats
+	healthy := []extOp{}
+	for _, k := range sc.Ctl.Kids {
+		healthy = append(healthy, extOp{Op: "healthy-all", APIVersion: k.APIVersion, Kind: k.Kind, Data: J{"reason": "Healthy"}})
+	}
+	switch r.Intn(8) {
+	case 0:
+		sc.Hook.Kind = "ordered"
+		sc.Features = append(sc.Features, "hook-ordered")
+	case 1:
+		sc.Hook.Kind = "echo"
+		sc.Features = append(sc.Features, "hook-echo")
+	case 2:
+		if len(sc.Hook.Children) > 0 {
+			sc.Hook.IntegralFloat = true // an integral float: replicas 1.0 on the wire
+			sc.Features = append(sc.Features, "integral-float")
+		}
+	case 3:
+		sc.Ctl.SSA = true
+		sc.Features = append(sc.Features, "ssa")
+	}
+	sc.Rounds = nil
+	n := 6 + 2*len(sc.Hook.Children)
+	for j := 0; j < n; j++ {
+		sc.Rounds = append(sc.Rounds, roundSpec{PreOps: healthy})
+	}
+	return sc
+}
+
 func generateScenarios(prop string, seed uint64, n int, adv bool) []*scenario {
 	root := vh.NewRng(seed ^ 0xc0de)
 	var out []*scenario
@@ -941,6 +1005,13 @@ func generateScenarios(prop string, seed uint64, n int, adv bool) []*scenario {
 		switch {
 		case prop == "C02" && i%2 == 1:
 			out = append(out, g.race(i, s))
+		case prop == "C02" && i%8 == 0:
+			sc := g.basic("basic", i, s)
+			sc.Ctl.SSA = true
+			sc.Features = append(sc.Features, "ssa")
+			out = append(out, sc)
+		case prop == "C01":
+			out = append(out, g.converge(i, s))
 		case prop == "C03" && i%3 == 1:
 			out = append(out, g.lifecycle(i, s))
 		case prop == "C03" && i%3 == 2:
